@@ -45,6 +45,28 @@ Proof.
   rewrite E1, E2, skipn_app. replace (from - length pre) with 0 by lia. reflexivity.
 Qed.
 
+Lemma window_new s s' c : reader s' = reader s -> incoming s' = incoming s -> window_of s' c (seen s c) = [].
+Proof. intros Hr Hi. unfold window_of. rewrite (seen_eq s s' c Hr Hi), Hi. apply skipn_firstn_same. Qed.
+
+Lemma window_pending s s' c from : incoming s' = incoming s -> pending_on s' c = pending_on s c -> window_of s' c from = window_of s c from.
+Proof. intros Hi Hp. unfold window_of, seen. now rewrite Hi, Hp. Qed.
+
+Lemma window_read s s' m c from : reader s = RIdle -> reader s' = RHave (IMsg m) -> incoming s' = incoming s ++ [m] ->
+  window_of s' c from = window_of s c from.
+Proof.
+  intros Hr Hr' Hi. unfold window_of, seen, pending_on. rewrite Hr, Hr', Hi, app_length. cbn [length].
+  replace (length (incoming s) + 1 - 1) with (length (incoming s)) by lia. rewrite Nat.sub_0_r.
+  rewrite firstn_app, firstn_all, Nat.sub_diag. cbn [firstn]. now rewrite app_nil_r.
+Qed.
+
+Lemma mem_nat_perm a b x : Permutation a b -> mem_nat x a = mem_nat x b.
+Proof.
+  intros Hp. destruct (mem_nat x b) eqn:E.
+  - apply mem_nat_in. apply mem_nat_in in E. eapply Permutation_in; [symmetry; eassumption | assumption].
+  - destruct (mem_nat x a) eqn:E2; [|reflexivity]. apply mem_nat_in in E2. assert (In x b) by (eapply Permutation_in; eassumption).
+    apply mem_nat_in in H. congruence.
+Qed.
+
 Section G3.
 Variable matches : nat -> msg -> bool.
 Notation tstep := (Steps.tstep matches).
@@ -67,5 +89,225 @@ Proof.
   unfold skey in *. destruct (s_rule st) as [r|], k as [| | |r']; try reflexivity; try lia; try (exfalso; apply Hk; tauto).
   f_equal. eapply (inv_inj _ _ I); eassumption.
 Qed.
+
+Lemma deliv_keep s s' sid st : deliv_ok s sid st ->
+  (In (skey st, s_ch st) (senders s') -> In (skey st, s_ch st) (senders s)) ->
+  unread (chan_at s' (s_ch st)) sid = unread (chan_at s (s_ch st)) sid ->
+  window_of s' (s_ch st) (s_from st) = window_of s (s_ch st) (s_from st) -> deliv_ok s' sid st.
+Proof. intros H Hs Hu Hw Hin. rewrite Hu, Hw. apply H. now apply Hs. Qed.
+
+(* an operation on one channel that keeps the log and the cursors of the other receivers *)
+Lemma unread_upd s s' c x sid st : chans s' = upd (chans s) c x -> c < length (chans s) ->
+  (s_ch st = c -> cursor x sid = cursor (chan_at s c) sid /\ log x = log (chan_at s c)) ->
+  unread (chan_at s' (s_ch st)) sid = unread (chan_at s (s_ch st)) sid.
+Proof.
+  intros Ech Hlt Hx. unfold chan_at at 1. rewrite Ech. destruct (Nat.eq_dec (s_ch st) c) as [E|Hne].
+  - rewrite E in *. rewrite nth_upd_same by assumption. destruct (Hx eq_refl) as [Hc Hl]. unfold unread. now rewrite Hc, Hl.
+  - now rewrite nth_upd_other.
+Qed.
+
+Lemma g_from_step s l s' : tstep s l s' -> Inv s -> forall sid st, lookup (streams s') sid = Some st -> s_from st <= seen s' (s_ch st).
+Proof.
+  intros Hs I sid0 st0 Hl. pose proof (inv_from _ _ I) as Hold.
+  assert (Hmono : forall c, seen s c <= seen s' c).
+  { intros c. unfold seen, pending_on. destruct Hs; simp; try lia;
+      try (match goal with Hr : rm_apply _ _ = _ |- _ => pose proof (rm_apply_frame _ _ _ _ Hr) as (_ & _ & _ & _ & _ & Erd & _ & Einc & _); simp; rewrite ?Erd, ?Einc; lia end).
+    all: rewrite ?H, ?app_length; cbn [length]; try lia.
+    all: try (destruct it as [m|e]); unfold mem_nat; cbn; try lia.
+    all: try (destruct (Nat.eqb c c0)); try (destruct (existsb (Nat.eqb c) todo)); cbn; try lia. }
+  assert (Hsame : forall c, reader s' = reader s -> incoming s' = incoming s -> seen s' c = seen s c) by (intros c; apply seen_eq).
+  assert (Hgen : forall st1, lookup (streams s) sid0 = Some st1 -> s_from st0 = s_from st1 -> s_ch st0 = s_ch st1 -> s_from st0 <= seen s' (s_ch st0)).
+  { intros st1 Hl1 Ef Ec. rewrite Ef, Ec. pose proof (Hold _ _ Hl1). pose proof (Hmono (s_ch st1)). lia. }
+  destruct Hs; simp; try (eapply Hgen; [eassumption | reflexivity | reflexivity]).
+  - (* occupied *) destruct (Nat.eq_dec sid0 sid) as [->|Hne].
+    + rewrite lookup_put_same in Hl. inversion Hl; subst st0. cbn [s_from s_ch mk_stream]. apply Hmono.
+    + rewrite lookup_put_other in Hl by assumption. eapply Hgen; [eassumption | reflexivity | reflexivity].
+  - (* add sender *) destruct (Nat.eq_dec sid0 sid) as [->|Hne].
+    + rewrite lookup_put_same in Hl. inversion Hl; subst st0. cbn [s_from s_ch mk_stream]. apply Hmono.
+    + rewrite lookup_put_other in Hl by assumption. eapply Hgen; [eassumption | reflexivity | reflexivity].
+  - (* unfiltered *) destruct (Nat.eq_dec sid0 sid) as [->|Hne].
+    + rewrite lookup_put_same in Hl. inversion Hl; subst st0. cbn [s_from s_ch mk_stream]. apply Hmono.
+    + rewrite lookup_put_other in Hl by assumption. eapply Hgen; [eassumption | reflexivity | reflexivity].
+  - (* poll *) destruct H as [Hl0 Hd]. destruct (Nat.eq_dec sid0 sid) as [->|Hne].
+    + rewrite lookup_put_same in Hl. inversion Hl; subst st0. eapply Hgen; [eassumption | reflexivity | reflexivity].
+    + rewrite lookup_put_other in Hl by assumption. eapply Hgen; [eassumption | reflexivity | reflexivity].
+  - apply in_del_lookup in Hl. eapply Hgen; [eassumption | reflexivity | reflexivity].
+  - apply in_del_lookup in Hl. eapply Hgen; [eassumption | reflexivity | reflexivity].
+  - (* clone *) destruct H as [Hl0 Hd]. destruct (Nat.eq_dec sid0 sid2) as [->|Hne].
+    + rewrite lookup_put_same in Hl. inversion Hl; subst st0. pose proof (Hold _ _ Hl0). pose proof (Hmono (s_ch st)). lia.
+    + rewrite lookup_put_other in Hl by assumption. eapply Hgen; [eassumption | reflexivity | reflexivity].
+  - apply in_del_lookup in Hl. eapply Hgen; [eassumption | reflexivity | reflexivity].
+  - pose proof (rm_apply_frame _ _ _ _ H3) as (_ & Estr & _). rewrite Estr in Hl. apply in_del_lookup in Hl. eapply Hgen; [eassumption | reflexivity | reflexivity].
+  - pose proof (rm_apply_frame _ _ _ _ H3) as (_ & Estr & _). rewrite Estr in Hl. eapply Hgen; [eassumption | reflexivity | reflexivity].
+  - apply in_del_lookup in Hl. eapply Hgen; [eassumption | reflexivity | reflexivity].
+  - pose proof (rm_apply_frame _ _ _ _ H1) as (_ & Estr & _). rewrite Estr in Hl. eapply Hgen; [eassumption | reflexivity | reflexivity].
+  - pose proof (rm_apply_frame _ _ _ _ H1) as (_ & Estr & _). rewrite Estr in Hl. eapply Hgen; [eassumption | reflexivity | reflexivity].
+Qed.
+
+Lemma targets_has l it k c : In (k, c) l -> key_matches k it = true -> In c (targets l it).
+Proof.
+  intros Hin Hk. unfold Model.targets. apply in_map_iff. exists (k, c). split; [reflexivity|]. apply filter_In. split; assumption.
+Qed.
+
+Lemma skey_not_reply st : skey st = KRet \/ skey st = KErr -> False.
+Proof. unfold skey. destruct (s_rule st); intros [H|H]; discriminate. Qed.
+
+Lemma g_deliv_step s l s' : tstep s l s' -> Inv s -> forall sid st, lookup (streams s') sid = Some st -> deliv_ok s' sid st.
+Proof.
+  intros Hs I sid0 st0 Hl. pose proof (Inv_own _ _ I) as [Icur Istr].
+  (* a stream that the step does not touch, when the tables and the reader stay as they are *)
+  assert (Hkeep : forall s1, lookup (streams s) sid0 = Some st0 ->
+            (In (skey st0, s_ch st0) (senders s1) -> In (skey st0, s_ch st0) (senders s)) ->
+            unread (chan_at s1 (s_ch st0)) sid0 = unread (chan_at s (s_ch st0)) sid0 ->
+            window_of s1 (s_ch st0) (s_from st0) = window_of s (s_ch st0) (s_from st0) -> deliv_ok s1 sid0 st0).
+  { intros s1 Hl0 H1 H2 H3. eapply deliv_keep; [exact (Inv_deliv _ _ _ I Hl0) | assumption | assumption | assumption]. }
+  destruct Hs.
+  - (* arrive *) apply Hkeep; try assumption; try reflexivity; tauto.
+  - (* read a message *) apply Hkeep; try assumption; try reflexivity; [tauto|]. eapply window_read; try eassumption; reflexivity.
+  - (* read a failure *) apply Hkeep; try assumption; try reflexivity; [tauto|]. apply window_pending; [reflexivity|]. unfold pending_on. cbn [reader with_reader with_socket]. now rewrite H.
+  - (* fan *) tsimp. intros Hreg. change (senders (with_reader s (RPush it todo))) with (senders s) in Hreg.
+    change (chan_at (with_reader s (RPush it todo)) (s_ch st0)) with (chan_at s (s_ch st0)).
+    pose proof (Inv_deliv _ _ _ I Hl Hreg) as IH. apply is_perm_spec in H0. destruct it as [m|e].
+    + destruct (mem_nat (s_ch st0) todo) eqn:Em.
+      * rewrite (window_pending s (with_reader s (RPush (IMsg m) todo)) (s_ch st0) (s_from st0)); [exact IH | reflexivity|].
+        unfold pending_on. cbn [reader with_reader]. now rewrite H, Em.
+      * destruct (inv_last _ _ I m (or_introl H)) as (pre & Hpre).
+        pose proof (inv_from _ _ I _ _ Hl) as Hfrom. unfold seen, pending_on in Hfrom. rewrite H, Hpre, app_length in Hfrom. cbn [length] in Hfrom.
+        rewrite (window_grow s (with_reader s (RPush (IMsg m) todo)) (s_ch st0) (s_from st0) pre m Hpre eq_refl).
+        -- rewrite filter_app. cbn [filter]. replace (accepts (skey st0) m) with false; [now rewrite app_nil_r|].
+           symmetry. destruct (accepts (skey st0) m) eqn:Ea; [|reflexivity]. exfalso.
+           assert (Hin : In (s_ch st0) (targets (senders s) (IMsg m))) by (eapply targets_has; eassumption).
+           assert (In (s_ch st0) todo) by (eapply Permutation_in; [symmetry; eassumption | assumption]). apply mem_nat_in in H1. congruence.
+        -- unfold seen, pending_on. rewrite H, Hpre, app_length. cbn. lia.
+        -- unfold seen, pending_on. cbn [reader with_reader incoming]. rewrite Em, Hpre, app_length. cbn. lia.
+        -- lia.
+    + rewrite (window_pending s (with_reader s (RPush (IFail e) todo)) (s_ch st0) (s_from st0)); [exact IH | reflexivity|].
+      unfold pending_on. cbn [reader with_reader]. now rewrite H.
+  - (* push *) tsimp. intros Hreg. change (senders (with_reader (set_chan s c ch') (RPush it todo))) with (senders s) in Hreg.
+    pose proof (Inv_deliv _ _ _ I Hl Hreg) as IH. autorewrite with chat. destruct (inv_todo _ _ I _ _ H) as [Htd Hnd].
+    destruct (Htd c (or_introl eq_refl)) as (k0 & Hk0 & Hm0). destruct (inv_shape _ _ I _ _ Hk0) as [Hlt _].
+    apply try_push_pushed in H0. destruct H0 as (Hlog & Hrcv & _).
+    destruct (Nat.eq_dec (s_ch st0) c) as [Ec|Hne].
+    + subst c. rewrite chan_at_set_same by assumption. destruct (Istr _ _ Hl) as (_ & (p & Hp) & _).
+      destruct (Icur _ _ _ Hlt Hp) as [Hple _]. rewrite (unread_push _ _ _ it sid0 p Hp Hple Hlog Hrcv), msgs_app.
+      destruct it as [m|e].
+      * (* a message: one more decided for this channel, and it matches the key the channel is registered under *)
+        specialize (Hnd m eq_refl). inversion Hnd as [|? ? Hnotin _]; subst.
+        destruct (inv_last _ _ I m (or_intror (ex_intro _ _ H))) as (pre & Hpre).
+        pose proof (inv_from _ _ I _ _ Hl) as Hfrom. unfold seen, pending_on in Hfrom. rewrite H, Hpre, app_length in Hfrom.
+        cbn [length mem_nat existsb] in Hfrom. rewrite Nat.eqb_refl in Hfrom. cbn [orb] in Hfrom.
+        assert (Ek : k0 = skey st0).
+        { eapply key_of_chan; try eassumption. intros [-> | ->]; cbn in Hm0.
+          - destruct (inv_shape _ _ I _ _ Hk0) as [_ S0]. destruct (inv_shape _ _ I _ _ Hreg) as [_ S1]. unfold skey in S1. destruct (s_rule st0); lia.
+          - destruct (inv_shape _ _ I _ _ Hk0) as [_ S0]. destruct (inv_shape _ _ I _ _ Hreg) as [_ S1]. unfold skey in S1. destruct (s_rule st0); lia. }
+        subst k0.
+        rewrite (window_grow s (with_reader (set_chan s (s_ch st0) ch') (RPush (IMsg m) todo)) (s_ch st0) (s_from st0) pre m Hpre eq_refl).
+        -- rewrite filter_app. cbn [filter]. unfold Inv.accepts at 2. rewrite Hm0. cbn [msgs flat_map app]. rewrite app_assoc. f_equal. exact IH.
+        -- unfold seen, pending_on. rewrite H, Hpre, app_length. cbn [length mem_nat existsb]. rewrite Nat.eqb_refl. cbn. lia.
+        -- unfold seen, pending_on. cbn [reader with_reader incoming set_chan with_chans]. rewrite Hpre, app_length.
+           replace (mem_nat (s_ch st0) todo) with false; [cbn; lia|]. symmetry. destruct (mem_nat (s_ch st0) todo) eqn:E; [|reflexivity].
+           apply mem_nat_in in E. contradiction.
+        -- lia.
+      * (* the failure item: not a message *)
+        cbn [msgs flat_map app]. rewrite app_nil_r.
+        rewrite (window_pending s (with_reader (set_chan s (s_ch st0) ch') (RPush (IFail e) todo)) (s_ch st0) (s_from st0)); [exact IH | reflexivity|].
+        unfold pending_on. cbn [reader with_reader]. now rewrite H.
+    + rewrite chan_at_set_other by assumption.
+      rewrite (window_pending s (with_reader (set_chan s c ch') (RPush it todo)) (s_ch st0) (s_from st0)); [exact IH | reflexivity|].
+      unfold pending_on. cbn [reader with_reader set_chan with_chans]. rewrite H. destruct it; [|reflexivity]. cbn [mem_nat existsb].
+      replace (Nat.eqb (s_ch st0) c) with false by (symmetry; apply Nat.eqb_neq; assumption). reflexivity.
+  - (* push skipped: no receiver / closed — then no stream sits on that channel *)
+    tsimp. intros Hreg. change (senders (with_reader s (RPush it todo))) with (senders s) in Hreg.
+    change (chan_at (with_reader s (RPush it todo)) (s_ch st0)) with (chan_at s (s_ch st0)).
+    pose proof (Inv_deliv _ _ _ I Hl Hreg) as IH. destruct (Istr _ _ Hl) as (_ & (p & Hp) & _).
+    assert (Hne : s_ch st0 <> c).
+    { intros Ec. rewrite Ec in *. destruct H0 as [H0|H0].
+      - apply try_push_noreceiver in H0. eapply cursor_some_rcv; eassumption.
+      - apply try_push_closed in H0. destruct (inv_closed _ _ I _ _ Hreg H0) as (_ & Hr & _). eapply cursor_some_rcv; eassumption. }
+    rewrite (window_pending s (with_reader s (RPush it todo)) (s_ch st0) (s_from st0)); [exact IH | reflexivity|].
+    unfold pending_on. cbn [reader with_reader]. rewrite H. destruct it; [|reflexivity]. cbn [mem_nat existsb].
+    replace (Nat.eqb (s_ch st0) c) with false by (symmetry; apply Nat.eqb_neq; assumption). reflexivity.
+  - (* next message *) apply Hkeep; try assumption; try reflexivity; [tauto|]. apply window_pending; [reflexivity|].
+    unfold pending_on. cbn [reader with_reader]. rewrite H. reflexivity.
+  - (* next after a failure: nothing is registered any more *) intros [].
+  - apply Hkeep; try assumption; try reflexivity; tauto.
+  - apply Hkeep; try assumption; try reflexivity; tauto.
+  - apply Hkeep; try assumption; try reflexivity; tauto.
+  - (* occupied *) subst c ch1 s1 s2. tsimp. destruct (inv_entry _ _ I _ _ H2) as [_ Hlt].
+    set (x := subscribe sid match a_q a with Some n => grow n (chan_at s (e_ch e)) | None => chan_at s (e_ch e) end).
+    assert (Hlx : log x = log (chan_at s (e_ch e))) by (unfold x; destruct (a_q a); reflexivity).
+    assert (Hcx : forall id, cursor x id = match cursor (chan_at s (e_ch e)) id with Some q => Some q | None => if Nat.eqb sid id then Some (tail (chan_at s (e_ch e))) else None end).
+    { intros id. unfold x. rewrite cursor_subscribe. destruct (a_q a); reflexivity. }
+    destruct (Nat.eq_dec sid0 sid) as [->|Hne].
+    + rewrite lookup_put_same in Hl. inversion Hl; subst st0. intros _. cbn [s_got s_ch s_from mk_stream msgs flat_map app]. autorewrite with chat.
+      rewrite chan_at_set_same by assumption. fold x.
+      assert (Hnc : cursor (chan_at s (e_ch e)) sid = None).
+      { destruct (cursor (chan_at s (e_ch e)) sid) as [q|] eqn:E; [|reflexivity]. destruct (Icur _ _ _ Hlt E) as [_ [(st' & Hs' & _)|(r' & a' & Ha' & _ & Hp')]].
+        - pose proof (inv_ids _ _ I _ _ H). congruence.
+        - rewrite H in Ha'. inversion Ha'; subst. congruence. }
+      unfold unread. rewrite Hcx, Hnc, Nat.eqb_refl, Hlx. unfold tail. rewrite skipn_all. rewrite window_new by reflexivity. reflexivity.
+    + rewrite lookup_put_other in Hl by assumption. apply Hkeep; try assumption; [tauto | | apply window_eq; reflexivity].
+      destruct (Istr _ _ Hl) as (_ & (p & Hp) & _).
+      autorewrite with chat. eapply (unread_upd s _ (e_ch e) x); [reflexivity | assumption|]. intros Ec. split; [|exact Hlx]. rewrite Hcx. rewrite <- Ec. now rewrite Hp.
+  - (* vacant *) subst c capacity s1 s2. tsimp. apply Hkeep; try assumption; [tauto | | apply window_eq; reflexivity].
+    destruct (Istr _ _ Hl) as (Hlt & _). autorewrite with chat. now rewrite chan_at_app_old.
+  - (* add sender *) tsimp. destruct (inv_a2 _ _ I sid (a_rule a) c) as (_ & Hno & Hlog & _ & Hcur & _ & Hnost); [exists a; tauto|].
+    destruct (Nat.eq_dec sid0 sid) as [->|Hne].
+    + rewrite lookup_put_same in Hl. inversion Hl; subst st0. intros _. cbn [s_got s_ch s_from mk_stream msgs flat_map app]. autorewrite with chat.
+      unfold unread. rewrite Hcur, Hlog. rewrite window_new by reflexivity. reflexivity.
+    + rewrite lookup_put_other in Hl by assumption. apply Hkeep; try assumption; try reflexivity.
+      intros Hin. apply in_app_iff in Hin. destruct Hin as [Hin|[Hin|[]]]; [assumption|]. inversion Hin. exfalso. eapply Hnost; eauto.
+  - (* unfiltered *) tsimp. assert (Hlt : 0 < length (chans s)) by (pose proof (inv_len _ _ I); lia). apply fresh_spec in H. destruct H as (Hn1 & Hn2 & _).
+    destruct (Nat.eq_dec sid0 sid) as [->|Hne].
+    + rewrite lookup_put_same in Hl. inversion Hl; subst st0. intros _. cbn [s_got s_ch s_from mk_stream msgs flat_map app]. autorewrite with chat.
+      rewrite chan_at_set_same by assumption.
+      assert (Hnc : cursor (chan_at s 0) sid = None).
+      { destruct (cursor (chan_at s 0) sid) as [q|] eqn:E; [|reflexivity]. destruct (Icur _ _ _ Hlt E) as [_ [(st' & Hs' & _)|(r' & a' & Ha' & _)]]; congruence. }
+      unfold unread. rewrite cursor_subscribe, Hnc, Nat.eqb_refl, log_subscribe. unfold tail. rewrite skipn_all. rewrite window_new by reflexivity. reflexivity.
+    + rewrite lookup_put_other in Hl by assumption. apply Hkeep; try assumption; [tauto | | apply window_eq; reflexivity].
+      destruct (Istr _ _ Hl) as (_ & (p & Hp) & _). autorewrite with chat.
+      eapply (unread_upd s _ 0 (subscribe sid (chan_at s 0))); [reflexivity | assumption|]. intros Ec. split; [|reflexivity]. rewrite cursor_subscribe. rewrite <- Ec. now rewrite Hp.
+  - (* poll *) tsimp. destruct H as [Hl0 Hd]. apply try_recv_got in H0. destruct H0 as (p0 & Hc0 & Hn0 & Hlog & _ & Hci & Hco).
+    destruct (Istr _ _ Hl0) as (Hlt & _). destruct (Nat.eq_dec sid0 sid) as [->|Hne].
+    + rewrite lookup_put_same in Hl. inversion Hl; subst st0. intros Hreg. cbn [s_got s_ch s_from s_rule got_more] in *.
+      change (skey (got_more st x)) with (skey st) in *. change (senders (with_streams (set_chan s (s_ch st) ch') (put (streams s) sid (got_more st x)))) with (senders s) in Hreg.
+      pose proof (Inv_deliv _ _ _ I Hl0 Hreg) as IH. autorewrite with chat. rewrite chan_at_set_same by assumption.
+      rewrite (window_eq s _ (s_ch st) (s_from st)) by reflexivity. rewrite <- IH.
+      rewrite (unread_step _ _ _ _ Hc0 Hn0). unfold unread. rewrite Hci, Hlog. rewrite msgs_app, <- app_assoc. f_equal. change (x :: skipn (S p0) (log (chan_at s (s_ch st)))) with ([x] ++ skipn (S p0) (log (chan_at s (s_ch st)))). now rewrite msgs_app.
+    + rewrite lookup_put_other in Hl by assumption. apply Hkeep; try assumption; [tauto | | apply window_eq; reflexivity].
+      autorewrite with chat. eapply (unread_upd s _ (s_ch st) ch'); [reflexivity | assumption|]. intros Ec. split; [now apply Hco | assumption].
+  - (* poll, end *) apply Hkeep; try assumption; try reflexivity; tauto.
+  - (* drop *) rewrite streams_bury in Hl. destruct (Nat.eq_dec sid0 sid) as [->|Hne]; [now rewrite lookup_del_same in Hl|]. rewrite lookup_del_other in Hl by assumption.
+    destruct H as [Hl0 Hd]. destruct (Istr _ _ Hl0) as (Hlt & _). apply Hkeep; try assumption; [tauto | | apply window_eq; reflexivity].
+    autorewrite with chat. eapply (unread_upd s _ (s_ch st) (drop_rcv sid (chan_at s (s_ch st)))); [reflexivity | assumption|]. intros Ec. split; [now apply cursor_drop_other | reflexivity].
+  - rewrite streams_bury in Hl. destruct (Nat.eq_dec sid0 sid) as [->|Hne]; [now rewrite lookup_del_same in Hl|]. rewrite lookup_del_other in Hl by assumption.
+    destruct H as [Hl0 Hd]. destruct (Istr _ _ Hl0) as (Hlt & _). apply Hkeep; try assumption; [tauto | | apply window_eq; reflexivity].
+    autorewrite with chat. eapply (unread_upd s _ (s_ch st) (drop_rcv sid (chan_at s (s_ch st)))); [reflexivity | assumption|]. intros Ec. split; [now apply cursor_drop_other | reflexivity].
+  - (* clone *) tsimp. destruct H as [Hl0 Hd]. destruct (Istr _ _ Hl0) as (Hlt & (p0 & Hp0) & _). apply fresh_spec in H0. destruct H0 as (Hn1 & Hn2 & _).
+    assert (Hnc : cursor (chan_at s (s_ch st)) sid2 = None).
+    { destruct (cursor (chan_at s (s_ch st)) sid2) as [q|] eqn:E; [|reflexivity]. destruct (Icur _ _ _ Hlt E) as [_ [(st' & Hs' & _)|(r' & a' & Ha' & _)]]; congruence. }
+    destruct (Nat.eq_dec sid0 sid2) as [->|Hne].
+    + rewrite lookup_put_same in Hl. inversion Hl; subst st0. intros Hreg.
+      change (senders (with_cloned (with_streams (set_chan s (s_ch st) (clone_rcv sid sid2 (chan_at s (s_ch st)))) (put (streams s) sid2 st)) true)) with (senders s) in Hreg.
+      pose proof (Inv_deliv _ _ _ I Hl0 Hreg) as IH. autorewrite with chat. rewrite chan_at_set_same by assumption.
+      rewrite (window_eq s _ (s_ch st) (s_from st)) by reflexivity. rewrite <- IH. f_equal. f_equal.
+      unfold unread. rewrite cursor_clone, Hnc, Nat.eqb_refl, Hp0, log_clone. reflexivity.
+    + rewrite lookup_put_other in Hl by assumption. apply Hkeep; try assumption; [tauto | | apply window_eq; reflexivity].
+      destruct (Istr _ _ Hl) as (_ & (p & Hp) & _). autorewrite with chat.
+      eapply (unread_upd s _ (s_ch st) (clone_rcv sid sid2 (chan_at s (s_ch st)))); [reflexivity | assumption|]. intros Ec. split; [|apply log_clone].
+      rewrite cursor_clone. rewrite <- Ec. now rewrite Hp.
+  - (* set capacity *) tsimp. destruct H as [Hl0 Hd]. destruct (Istr _ _ Hl0) as (Hlt & _). apply Hkeep; try assumption; [tauto | | apply window_eq; reflexivity].
+    eapply (unread_upd s _ (s_ch st) (grow n (chan_at s (s_ch st)))); [reflexivity | assumption|]. intros Ec. split; reflexivity.
+  - apply Hkeep; try assumption; try reflexivity; tauto.
+  - rewrite streams_bury in Hl. destruct (Nat.eq_dec sid0 sid) as [->|Hne]; [now rewrite lookup_del_same in Hl|]. rewrite lookup_del_other in Hl by assumption.
+    destruct H as [Hl0 Hd]. destruct (Istr _ _ Hl0) as (Hlt & _). apply Hkeep; try assumption; [tauto | | apply window_eq; reflexivity].
+    autorewrite with chat. eapply (unread_upd s _ (s_ch st) (drop_rcv sid (chan_at s (s_ch st)))); [reflexivity | assumption|]. intros Ec. split; [now apply cursor_drop_other | reflexivity].
+  - admit.
+  - admit.
+  - admit.
+  - admit.
+  - admit.
+  - admit.
+Admitted.
 
 End G3.
